@@ -118,7 +118,27 @@ Definition sampler_draw (clamp : bool) (r : Z) : option unit :=
   let n := if 9223372036854775808 <=? u1 then u1 - two64 else u1 in   (* int(rate) *)
   if n <=? 0 then None else Some tt.
 
-(* DirectTransmission.dispatchStaleBatches: d.Clock.NewTicker(d.batchTimeout / 4) (Go integer division truncates
-   towards zero); known finding: an accepted BatchTimeout below 4ns gives interval 0 *)
-Definition batch_ticker (batch_timeout : Z) : option unit :=
-  let i := Z.quot batch_timeout 4 in if i <=? 0 then None else Some tt.
+(* DirectTransmission: Start clamps batchTimeout to >= 4ns [clamp]; dispatchStaleBatches then calls
+   d.Clock.NewTicker(d.batchTimeout / 4) (Go integer division truncates towards zero) *)
+Definition batch_ticker (clamp : bool) (batch_timeout : Z) : option unit :=
+  let b := if clamp then Z.max batch_timeout 4 else batch_timeout in
+  let i := Z.quot b 4 in if i <=? 0 then None else Some tt.
+
+(* what validation accepts for EMAThroughputSampler.AdjustmentInterval (ns): with the metadata bound
+   (minOrZero 1ms, compared without truncating to whole milliseconds) zero or >= 1ms; before, any non-negative value *)
+Definition ema_interval_accepted (bounded : bool) (d : Z) : bool :=
+  if bounded then (d =? 0) || (1000000 <=? d) else 0 <=? d.
+
+(* RulesBasedSampler.GetSampleRate, rule without a downstream sampler:
+   keep = !rule.Drop && GUARD && rand.Intn(rule.SampleRate) == 0 ; rand.Intn(n) panics for n <= 0.
+   [strict]: the guard is `rule.SampleRate > 0` (the source); otherwise the weaker `!= 0`. *)
+Definition rules_draw (strict : bool) (drop : bool) (rate : Z) : option unit :=
+  if drop then Some tt
+  else if (if strict then 0 <? rate else negb (rate =? 0)) then (if rate <=? 0 then None else Some tt)
+  else Some tt.
+
+(* NewCollectorWorker: make(chan *types.Span, (size + workers - 1) / workers) with workers = max(WorkerCount, 1);
+   makechan panics for a negative size. [validated]: the metadata demands size >= 0 *)
+Definition queue_size_accepted (validated : bool) (size : Z) : bool := if validated then 0 <=? size else true.
+Definition worker_queue (size workers : Z) : option Z :=
+  let per := Z.quot (size + workers - 1) workers in if per <? 0 then None else Some per.
